@@ -16,6 +16,9 @@ CONSTANTS
   MaxP = %d
   MaxLen = %d
   ExportLen = %d
+  StackMax = %d
+  MaxFree = %d
+  RepeatWeight = %d
   Only %s
 INVARIANTS OracleSane Export
 VIEW View
@@ -29,6 +32,7 @@ CHECK_DEADLOCK FALSE
 """
 
 WORKERS = int(os.environ.get("VERIF_TLC_WORKERS", "8"))
+SIM_REPEAT_WEIGHT = 3
 
 
 def _tla(v):
@@ -105,27 +109,33 @@ def run(pid, tier, replay=None):
         only = "{" + ", ".join(sorted(set(_tla(h) for h in hists))) + "}"
         with open(os.path.join(wd, "MCIntervalReplay.tla"), "w") as fh:
             fh.write("---- MODULE MCIntervalReplay ----\nEXTENDS MCInterval\nOnlyDef == %s\n====\n" % only)
-        runs = [("replay", maxp, maxlen, None, 1)]
+        runs = [("replay", maxp, maxlen, None, 1, None)]
     elif tier == "thorough":
-        runs = [("exh_p4_l5", 4, 5, None, 0), ("exh_p5_l4", 5, 4, None, 1), ("exh_p2_l7", 2, 7, None, 4),
-                ("exh_p1_l10", 1, 10, None, 4), ("sim_p9_l12", 9, 12, 400, 1)]
+        runs = [("exh_p4_l5", 4, 5, None, 0, None), ("exh_p5_l4", 5, 4, None, 1, None), ("exh_p2_l7", 2, 7, None, 4, None),
+                ("exh_p1_l10", 1, 10, None, 4, None),
+                ("stack_p4_k3_f3", 4, 6, None, 8, (3, 3)), ("stack_p2_k7_f4", 2, 11, None, 8, (7, 4)),
+                ("sim_p9_l12", 9, 12, 400, 1, None)]
     else:
-        runs = [("exh_p4_l4", 4, 4, None, 3), ("exh_p2_l5", 2, 5, None, 1), ("exh_p1_l7", 1, 7, None, 1),
-                ("sim_p7_l9", 7, 9, 40, 0)]
+        runs = [("exh_p4_l4", 4, 4, None, 5, None), ("exh_p2_l5", 2, 5, None, 1, None), ("exh_p1_l7", 1, 7, None, 1, None),
+                ("stack_p3_k3_f3", 3, 6, None, 0, (3, 3)),
+                ("sim_p7_l9", 7, 9, 40, 0, None)]
+    # the last element (k, f): "stacked" family = 1..k copies of one interval, then every sequence of exactly f
+    # further inserts (see MCInterval); simulate runs re-offer earlier intervals with weight SIM_REPEAT_WEIGHT
 
     states = trans = ncases = nontrivial = checks = traced = rejected_total = 0
     samples, bounds, variants = [], [], {}
     corrupt_ok = None
     trace_selftest = None
-    for name, maxp, maxlen, sim, do_trace in runs:
+    for name, maxp, maxlen, sim, do_trace, stack in runs:
         cfg = "MCInterval_%s.cfg" % name
         module = "MCInterval"
         with open(os.path.join(wd, cfg), "w") as fh:
             if replay:
-                fh.write(CFG % (maxp, maxlen, 0, "<- OnlyDef"))
+                fh.write(CFG % (maxp, maxlen, 0, 0, 0, 0, "<- OnlyDef"))
                 module = "MCIntervalReplay"
             else:
-                fh.write(CFG % (maxp, maxlen, maxlen, "= {}"))
+                fh.write(CFG % (maxp, maxlen, maxlen, stack[0] if stack else 0, stack[1] if stack else 0,
+                                SIM_REPEAT_WEIGHT if sim else 0, "= {}"))
         casefile = os.path.join(wd, "cases_%s.jsonl" % name)
         seen = set()
         cnt = [0, 0]
@@ -147,7 +157,8 @@ def run(pid, tier, replay=None):
         if r.violated:
             raise vf.MachineryError("spec-level check %s failed in MCInterval (%s)" % (r.violated, name))
         if not sim and not replay:
-            expect = ((maxp + 1) * (maxp + 2) // 2) ** maxlen
+            nivs = (maxp + 1) * (maxp + 2) // 2
+            expect = stack[0] * nivs ** (stack[1] + 1) if stack else nivs ** maxlen
             if cnt[0] != expect:
                 raise vf.MachineryError("MCInterval %s exported %d histories, expected %d" % (name, cnt[0], expect))
         if cnt[0] == 0:
@@ -157,6 +168,7 @@ def run(pid, tier, replay=None):
         ncases += cnt[0]
         nontrivial += cnt[1]
         bounds.append({"run": name, "points": "0..%d" % maxp, "max_inserts": maxlen, "simulate": sim,
+                       "stacked_copies_then_free_inserts": list(stack) if stack else None,
                        "histories": cnt[0], "tlc_states": r.distinct})
 
         trace_path = os.path.join(wd, "nesting_%s.ndjson" % name)
@@ -207,7 +219,7 @@ def run(pid, tier, replay=None):
                 if _mism(["-corrupt", str(k % min(2000, cnt[0]))]) > base_m:
                     corrupt_ok = True
                     break
-            if not corrupt_ok:
+            if not corrupt_ok and not verdict.violations:
                 raise vf.MachineryError("binding self-test failed: corrupted expectation in case %d not reported" % k)
 
     rc = verdict.finish()
